@@ -17,7 +17,7 @@ import (
 func init() {
 	eng.Register(&eng.Check{
 		ID:          "C07",
-		Rule:        "E1/E2 differential over selector spellings: every path of 1..3 parts over the part alphabet {a, A, b, 0, 01, a/b, a~b, a.b, 'a b', ' a', e-acute, \"\", ~1, ~0, x~01, k/, k~, /k, ~k, /, ~, ~~, ~/ (keys that themselves contain escape-like text)} that is expressible in >=2 spellings x EVERY combination of per-part spelling (.ident, .digits, [\"..\"], [`..`], [ \"..\" ] with inner blanks, escape spelling, mixed within one selector; whole-selector JSON pointer with ~0/~1 escapes) x 8 operators x documents (nested string-keyed maps of depth 1..3 with a distinct leaf per path, struct/tag and list variants), also as quantified collection, inside quantifier bodies (alias-relative), and two different paths with colliding rendered text (a[\"a.b\"] vs a.a.b) inside ONE expression in every spelling pair; oracle: grammar.Parse yields exactly the intended Path for every spelling and Evaluate's outcome is identical across the spellings of one path on every document; distinct leaves make case-/blank-variants select different keys. Distinct by construction; non-trivial = a (path, operator) group with >=2 spellings compared.",
+		Rule:        "E1/E2 differential over selector spellings: every path of 1..3 parts over the part alphabet {a, A, b, 0, 01, a/b, a~b, a.b, 'a b', ' a', e-acute, \"\", ~1, ~0, x~01, k/, k~, /k, ~k, /, ~, ~~, ~/ (keys that themselves contain escape-like text)} that is expressible in >=2 spellings x EVERY combination of per-part spelling (.ident, .digits, [\"..\"], [`..`], [ \"..\" ] with inner blanks, escape spelling, mixed within one selector; whole-selector JSON pointer with ~0/~1 escapes) x 8 operators x documents (nested string-keyed maps of depth 1..3 with a distinct leaf per path, struct/tag and list variants), also as quantified collection, inside quantifier bodies (alias-relative; key / index placeholders by bare name and by one-segment JSON pointer), and two different paths with colliding rendered text (a[\"a.b\"] vs a.a.b) inside ONE expression in every spelling pair; oracle: grammar.Parse yields exactly the intended Path for every spelling and Evaluate's outcome is identical across the spellings of one path on every document; distinct leaves make case-/blank-variants select different keys. Distinct by construction; non-trivial = a (path, operator) group with >=2 spellings compared.",
 		Assumptions: []string{"outcome classes only", "bounded part alphabet and depth"},
 		Run:         runC07,
 	})
@@ -25,7 +25,9 @@ func init() {
 
 var c07Parts = []string{"a", "A", "b", "0", "01", "a/b", "a~b", "a.b", "a b", " a", "é", "", "~1", "~0", "x~01", "a-b", "a:b|c", "_x", "007", "1e3", "-1",
 	// separators / escape characters at the END and START of a key and alone (single-pass decoders slip at the boundaries)
-	"k/", "k~", "/k", "~k", "/", "~", "~~", "~/"}
+	"k/", "k~", "/k", "~k", "/", "~", "~~", "~/",
+	// all-digit keys beyond the int64 / uint64 range (a numeric part is a map key too, not only a list index)
+	"9223372036854775808", "18446744073709551616"}
 
 func identOK(s string) bool {
 	if s == "" {
@@ -314,6 +316,36 @@ func runC07(c *eng.Ctx) {
 							c.Count("body:" + v3name[first[di]])
 						}
 					}
+				}
+			}
+		}
+		// (3b) key / index placeholders referred to by their bare name and by the one-segment JSON pointer; the placeholder is called
+		// like a top-level key of the documents, so that "not taken for the placeholder" does not error but silently reads the datum
+		if pi == 0 {
+			for _, tm := range []string{"any a as b, _ { %s == `a` }", "all a as b { %s != `b` }", "any a as b, v { %s == `0` or %s == `a` }", "any a as b, _ { any a as A, _ { %s == `a` and A != `zz` } }",
+				"any a as b, _ { %s matches `a` }", "all a as b, _ { `a` in %s }", "any a as b { %s is empty }"} {
+				var first []int
+				var firstSrc string
+				for _, ref := range []string{"b", `"/b"`} {
+					src := strings.ReplaceAll(tm, "%s", ref)
+					got := evalSrc(src)
+					c.R.States++
+					c.R.Traces++
+					if got == nil {
+						continue
+					}
+					if first == nil {
+						first, firstSrc = got, src
+						c.R.Nontrivial++
+						continue
+					}
+					for di := range ds {
+						if got[di] != first[di] && got[di] >= 0 && first[di] >= 0 {
+							c.Violate(eng.Violation{Kind: "spelling-changes-outcome-of-placeholder", Key: "A=" + firstSrc + " | B=" + src + fmt.Sprintf(" | doc#%d", di), Coords: map[string]int{"p": pi},
+								Expected: v3name[first[di]], Observed: v3name[got[di]]})
+						}
+					}
+					c.Count("placeholder-spellings")
 				}
 			}
 		}
